@@ -34,7 +34,7 @@ fn world0(style: &str) -> Hierarchy<Arc<Relation>> {
         // style `uniq`: the column k is declared UNIQUE in both protected tables (and the data honours it)
         let kcol = if style == "uniq" { ("k", DataType::integer_interval(0, 9), Some(qrlew::relation::Constraint::Unique)) } else { ("k", DataType::integer_interval(0, 3), None) };
         let mut cols = vec![("pu", DataType::integer_interval(0, 5), None), kcol, (c, DataType::optional(DataType::integer_interval(-3, 3)), None)];
-        if style == "weight" { cols.push(("wt", DataType::integer_interval(1, 3), None)); }
+        if style == "weight" || style == "weightnohash" { cols.push(("wt", DataType::integer_interval(1, 3), None)); }
         if style == "fk" && name == "ta" { cols.push(("rid", DataType::integer_interval(0, 20), None)); }
         Relation::table().name(name).schema(cols.into_iter().collect::<qrlew::relation::Schema>()).size(100).build() };
     let pp: Relation = Relation::table().name("pp").schema(vec![("k", DataType::integer_interval(0, 3)), ("w", DataType::integer_interval(0, 9))].into_iter().collect::<qrlew::relation::Schema>()).size(100).build();
@@ -50,6 +50,8 @@ fn privacy_unit(style: &str) -> PrivacyUnit {
     match style {
         "nohash" => PrivacyUnit::from((vec![("ta", vec![], "pu"), ("tb", vec![], "pu")], false)),
         "weight" => PrivacyUnit::from(vec![("ta", vec![], "pu", "wt"), ("tb", vec![], "pu", "wt")]),
+        // the constructor that takes both a weight column and the hashing flag
+        "weightnohash" => PrivacyUnit::from((vec![("ta", vec![], "pu", "wt"), ("tb", vec![], "pu", "wt")], false)),
         "fk" => PrivacyUnit::from(vec![("ta", vec![], "rid"), ("tb", vec![], "pu"), ("tc", vec![("r", "ta", "rid")], "rid")]),
         _ => PrivacyUnit::from(vec![("ta", vec![], "pu"), ("tb", vec![], "pu")]),
     }
@@ -89,12 +91,12 @@ fn emit(t: &J, ctes: &mut Vec<String>) -> String {
 }
 
 pub fn gen(rng: &mut Rng, _k: usize, _tier: &str) -> J {
-    let style = *rng.pick(&["own", "own", "nohash", "weight", "fk", "fk", "uniq"]);
+    let style = *rng.pick(&["own", "own", "nohash", "weight", "weightnohash", "fk", "fk", "uniq"]);
     let depth = 1 + rng.below(3) as u32;
     let tree = gen_tree(rng, depth, if style == "fk" { 3 } else { 2 });
     // raw rows: ta / tb = [pu, k, x|null, extra] where extra is the weight (style weight) or, for ta, the row id (style fk)
     let mut next_rid = 0i64;
-    let mut table = |rng: &mut Rng, is_ta: bool| -> Vec<J> { (0..rng.below(9)).map(|_| { let extra = if style == "weight" { json!(rng.range(1, 3)) } else if style == "fk" && is_ta { next_rid += 1 + rng.below(2) as i64; json!(next_rid) } else { J::Null };
+    let mut table = |rng: &mut Rng, is_ta: bool| -> Vec<J> { (0..rng.below(9)).map(|_| { let extra = if style == "weight" || style == "weightnohash" { json!(rng.range(1, 3)) } else if style == "fk" && is_ta { next_rid += 1 + rng.below(2) as i64; json!(next_rid) } else { J::Null };
         json!([rng.below(4), rng.below(4), if rng.chance(1, 8) { J::Null } else { json!(rng.range(-3, 3)) }, extra]) }).collect() };
     let mut ta = table(rng, true); let mut tb = table(rng, false);
     if style == "uniq" { for t in [&mut ta, &mut tb] { let mut ks: Vec<i64> = (0..10).collect(); for r in t.iter_mut() { let i = rng.below(ks.len() as u64) as usize; r[1] = json!(ks.remove(i)); } } }
@@ -106,7 +108,7 @@ pub fn gen(rng: &mut Rng, _k: usize, _tier: &str) -> J {
     for k in 0..4 { if rng.chance(2, 3) { let n = if rng.chance(1, 5) { 2 } else { 1 }; for _ in 0..n { pp.push(json!([k, rng.below(10)])); } } }
     // what the privacy-unit definition assigns to every protected row: (unit, weight, c0, c1); rows owned by nobody are not tracked
     let tracked_of = |rows: &Vec<J>, which: usize| -> Vec<J> { rows.iter().filter_map(|r| {
-        let (unit, w) = match (style, which) { ("fk", 0) => (r[3].as_i64(), 1), ("fk", 2) => (r[0].as_i64().filter(|x| rids.contains(x)), 1), ("weight", _) => (r[0].as_i64(), r[3].as_i64().unwrap_or(1)), _ => (r[0].as_i64(), 1) };
+        let (unit, w) = match (style, which) { ("fk", 0) => (r[3].as_i64(), 1), ("fk", 2) => (r[0].as_i64().filter(|x| rids.contains(x)), 1), ("weight", _) | ("weightnohash", _) => (r[0].as_i64(), r[3].as_i64().unwrap_or(1)), _ => (r[0].as_i64(), 1) };
         unit.map(|u| json!([u, w, r[1], r[2]])) }).collect() };
     let tracked = json!([tracked_of(&ta, 0), tracked_of(&tb, 1), tracked_of(&tc, 2)]);
     json!({"tree": tree, "style": style, "top_reserved": rng.chance(1, 25), "aliased": rng.chance(1, 4), "ta": ta, "tb": tb, "tc": tc, "pp": pp, "tracked": tracked})
@@ -149,7 +151,7 @@ pub fn eval(case: &J) -> Outcome {
         // the rendered SQL reads a table at its path
         let tn = |n: &str| -> String { if aliased { format!("{n} storage") } else { n.to_string() } };
         match style {
-            "weight" => { db.create_table(&tn("ta"), &["pu", "k", "x", "wt"], &cut(sel("ta", 0), 4)); db.create_table(&tn("tb"), &["pu", "k", "y", "wt"], &cut(sel("tb", 1), 4)); }
+            "weight" | "weightnohash" => { db.create_table(&tn("ta"), &["pu", "k", "x", "wt"], &cut(sel("ta", 0), 4)); db.create_table(&tn("tb"), &["pu", "k", "y", "wt"], &cut(sel("tb", 1), 4)); }
             "fk" => { db.create_table(&tn("ta"), &["pu", "k", "x", "rid"], &cut(sel("ta", 0), 4)); db.create_table(&tn("tb"), &["pu", "k", "y"], &cut(sel("tb", 1), 3)); db.create_table(&tn("tc"), &["r", "k", "z"], &cut(sel("tc", 2), 3)); }
             _ => { db.create_table(&tn("ta"), &["pu", "k", "x"], &cut(sel("ta", 0), 3)); db.create_table(&tn("tb"), &["pu", "k", "y"], &cut(sel("tb", 1), 3)); }
         }
